@@ -35,6 +35,43 @@ variable (c : Ctx) (s : Site) (o : Outcome) (st : Tri) (r : Reason)
 @[simp] theorem setI_mem : (c.setI st r).mem = { c.mem with conds := { c.mem.conds with i := c.mem.conds.i.set st r c.w.now } } := rfl
 end ctx
 
+/-! the NodePool read (`updateNodePoolRegistrationHealth`) -/
+
+/-- what the NodePool read adds to the call log -/
+def poolCalls (f : Faults) : List Call :=
+  if f.poolGet = .unlabelled then [] else [⟨.poolGet, f.poolGet.toOutcome⟩]
+
+@[simp] theorem poolRead_w (f : Faults) (c : Ctx) : (poolRead f c).w = c.w := by unfold poolRead; split <;> rfl
+@[simp] theorem poolRead_mem (f : Faults) (c : Ctx) : (poolRead f c).mem = c.mem := by unfold poolRead; split <;> rfl
+@[simp] theorem poolRead_errs (f : Faults) (c : Ctx) : (poolRead f c).errs = c.errs := by unfold poolRead; split <;> rfl
+@[simp] theorem poolRead_errsNF (f : Faults) (c : Ctx) : (poolRead f c).errsNF = c.errsNF := by unfold poolRead; split <;> rfl
+@[simp] theorem poolRead_results (f : Faults) (c : Ctx) : (poolRead f c).results = c.results := by unfold poolRead; split <;> rfl
+@[simp] theorem poolRead_calls (f : Faults) (c : Ctx) : (poolRead f c).calls = c.calls ++ poolCalls f := by
+  unfold poolRead poolCalls; split <;> simp [Ctx.call]
+
+@[simp] theorem poolHealth_w (f : Faults) (c : Ctx) : (poolHealth f c).1.w = c.w := by
+  unfold poolHealth; simp only []; split <;> simp
+@[simp] theorem poolHealth_mem (f : Faults) (c : Ctx) : (poolHealth f c).1.mem = c.mem := by
+  unfold poolHealth; simp only []; split <;> simp
+@[simp] theorem poolHealth_errsNF (f : Faults) (c : Ctx) : (poolHealth f c).1.errsNF = c.errsNF := by
+  unfold poolHealth; simp only []; split <;> simp
+@[simp] theorem poolHealth_calls (f : Faults) (c : Ctx) : (poolHealth f c).1.calls = c.calls ++ poolCalls f := by
+  unfold poolHealth; simp only []; split <;> simp
+theorem poolHealth_errs (f : Faults) (c : Ctx) (h : c.errs = true) : (poolHealth f c).1.errs = true := by
+  unfold poolHealth; simp only []; split <;> simp [h]
+theorem poolHealth_proceed (f : Faults) (c : Ctx) (h : (poolHealth f c).2 = .proceed) :
+    (poolHealth f c).1.errs = c.errs ∧ (poolHealth f c).1.results = c.results := by
+  unfold poolHealth at h ⊢; simp only [] at h ⊢; split at h <;> simp_all
+
+@[simp] theorem regSuccess_w (f : Faults) (c : Ctx) : (regSuccess f c).w = c.w := by simp [regSuccess]
+@[simp] theorem regSuccess_mem (f : Faults) (c : Ctx) :
+    (regSuccess f c).mem = { c.mem with conds := { c.mem.conds with r := c.mem.conds.r.set .true_ .registered c.w.now }, nodeName := true } := by
+  simp [regSuccess]
+@[simp] theorem regSuccess_errsNF (f : Faults) (c : Ctx) : (regSuccess f c).errsNF = c.errsNF := by simp [regSuccess]
+@[simp] theorem regSuccess_calls (f : Faults) (c : Ctx) : (regSuccess f c).calls = c.calls ++ poolCalls f := by simp [regSuccess]
+theorem regSuccess_errs (f : Faults) (c : Ctx) (h : c.errs = true) : (regSuccess f c).errs = true := by
+  unfold regSuccess; exact poolHealth_errs f _ (by simpa using h)
+
 @[simp] theorem Cond.set_status (c : Cond) (st : Tri) (r : Reason) (now : Nat) : (c.set st r now).status = st := rfl
 
 /-- the part of the world the invariants talk about -/
@@ -87,6 +124,30 @@ variable (f : Faults) (o : Outcome) (c : Ctx)
 @[simp] theorem capacityError_mem : (capacityError f o c).mem = c.mem := by
   unfold capacityError; simp only []; split <;> simp
 end cap
+
+section tmo
+variable (f : Faults) (c : Ctx)
+@[simp] theorem timeoutDelete_core : (timeoutDelete f c).w.core = c.w.core := by
+  unfold timeoutDelete; simp only []; split; · simp
+  split <;> simp
+@[simp] theorem timeoutDelete_nodes : (timeoutDelete f c).w.nodes = c.w.nodes := by
+  unfold timeoutDelete; simp only []; split; · simp
+  split <;> simp
+@[simp] theorem timeoutDelete_now : (timeoutDelete f c).w.now = c.w.now := by
+  unfold timeoutDelete; simp only []; split; · simp
+  split <;> simp
+@[simp] theorem timeoutDelete_mem : (timeoutDelete f c).mem = c.mem := by
+  unfold timeoutDelete; simp only []; split; · simp
+  split <;> simp
+@[simp] theorem timeoutDelete_errsNF : (timeoutDelete f c).errsNF = c.errsNF := by
+  unfold timeoutDelete; simp only []; split; · simp
+  split <;> simp
+theorem timeoutDelete_errs (h : c.errs = true) : (timeoutDelete f c).errs = true := by
+  unfold timeoutDelete; simp only []; split; · exact poolHealth_errs f c h
+  split
+  · simp [poolHealth_errs f c h]
+  · simp
+end tmo
 
 
 /-- what `Launch.Reconcile` did, by case -/
@@ -164,19 +225,19 @@ theorem launch_mem (f : Faults) (co : CreateOutcome) (c : Ctx) :
 
 /-! ### registration -/
 
-theorem regSuccess_facts (c : Ctx) : (regSuccess c).w = c.w ∧ (regSuccess c).mem.conds.r.status = .true_ ∧
-    (regSuccess c).mem.conds.l = c.mem.conds.l ∧ (regSuccess c).mem.conds.i = c.mem.conds.i ∧
-    (regSuccess c).mem.conds.init = c.mem.conds.init ∧ (regSuccess c).mem.finalizer = c.mem.finalizer ∧
-    (regSuccess c).mem.deleting = c.mem.deleting ∧ (regSuccess c).mem.present = c.mem.present ∧
-    (regSuccess c).mem.providerID = c.mem.providerID ∧ (regSuccess c).mem.provLabels = c.mem.provLabels := by
-  simp [regSuccess]
+theorem regSuccess_facts (f : Faults) (c : Ctx) : (regSuccess f c).w = c.w ∧ (regSuccess f c).mem.conds.r.status = .true_ ∧
+    (regSuccess f c).mem.conds.l = c.mem.conds.l ∧ (regSuccess f c).mem.conds.i = c.mem.conds.i ∧
+    (regSuccess f c).mem.conds.init = c.mem.conds.init ∧ (regSuccess f c).mem.finalizer = c.mem.finalizer ∧
+    (regSuccess f c).mem.deleting = c.mem.deleting ∧ (regSuccess f c).mem.present = c.mem.present ∧
+    (regSuccess f c).mem.providerID = c.mem.providerID ∧ (regSuccess f c).mem.provLabels = c.mem.provLabels := by
+  simp
 
 theorem registerOne_core (sp : Spec) (f : Faults) (c : Ctx) (n : Node) :
     (registerOne sp f c n).w.core = c.w.core ∧ (registerOne sp f c n).w.now = c.w.now := by
   unfold registerOne
   simp only []
-  split; · simp [regSuccess]
-  split <;> simp [regSuccess, World.core]
+  split; · simp
+  split <;> simp [World.core]
 
 theorem registerOne_mem (sp : Spec) (f : Faults) (c : Ctx) (n : Node) :
     let m := (registerOne sp f c n).mem
@@ -184,8 +245,8 @@ theorem registerOne_mem (sp : Spec) (f : Faults) (c : Ctx) (n : Node) :
     m.deleting = c.mem.deleting ∧ m.present = c.mem.present ∧ m.providerID = c.mem.providerID ∧ m.provLabels = c.mem.provLabels := by
   unfold registerOne
   simp only []
-  split; · simp [regSuccess]
-  split <;> simp [regSuccess]
+  split; · simp
+  split <;> simp
 
 theorem registerOne_true (sp : Spec) (f : Faults) (c : Ctx) (n : Node) (hn : c.w.nodes = [n])
     (h : (registerOne sp f c n).mem.conds.r.status = .true_) (h0 : c.mem.conds.r.status ≠ .true_) :
@@ -193,9 +254,9 @@ theorem registerOne_true (sp : Spec) (f : Faults) (c : Ctx) (n : Node) (hn : c.w
   unfold registerOne at h ⊢
   simp only [] at h ⊢
   by_cases he : registerNode sp c.mem n = n
-  · simp [he, regSuccess, hn]
+  · simp [he, hn]
   · simp only [he, if_false] at h ⊢
-    split at h <;> simp_all [regSuccess]
+    split at h <;> simp_all
 
 theorem registration_core (sp : Spec) (f : Faults) (c : Ctx) : (registration sp f c).w.core = c.w.core ∧
     (registration sp f c).w.now = c.w.now := by
@@ -355,9 +416,7 @@ theorem livenessLaunch_facts (f : Faults) (c : Ctx) :
   unfold livenessLaunch
   split; · simp
   split; · simp
-  simp only []
-  split; · simp
-  split <;> simp
+  simp
 
 theorem liveness_facts (f : Faults) (c : Ctx) :
     (liveness f c).w.core = c.w.core ∧ (liveness f c).w.nodes = c.w.nodes ∧
@@ -368,7 +427,7 @@ theorem liveness_facts (f : Faults) (c : Ctx) :
   have h := livenessLaunch_facts f c
   split; · exact h
   split; · simpa using h
-  split <;> simpa using h
+  simpa using h
 
 
 /-! ### the two patches -/
@@ -566,6 +625,9 @@ def launchCreates (co : CreateOutcome) : LaunchCase → List Call
   | .failed => [⟨.create, co.toOutcome⟩]
   | _ => []
 
+theorem creates_poolCalls (f : Faults) : creates (poolCalls f) = [] := by
+  unfold poolCalls; split <;> simp [creates]
+
 theorem deleteClaim_calls' (f : Faults) (c : Ctx) : ∃ rest, (deleteClaim f c).calls = c.calls ++ rest ∧ creates rest = [] :=
   ⟨_, deleteClaim_calls f c, by simp [creates]⟩
 
@@ -595,9 +657,9 @@ theorem registerOne_calls (sp : Spec) (f : Faults) (c : Ctx) (n : Node) :
     ∃ rest, (registerOne sp f c n).calls = c.calls ++ rest ∧ creates rest = [] := by
   unfold registerOne
   simp only []
-  split; · exact ⟨[], by simp [regSuccess], rfl⟩
+  split; · exact ⟨poolCalls f, by simp, creates_poolCalls f⟩
   split
-  · exact ⟨[⟨.nodePatchLock, .ok⟩], by simp [regSuccess], by simp [creates]⟩
+  · exact ⟨[⟨.nodePatchLock, .ok⟩] ++ poolCalls f, by simp, by rw [creates_append, creates_poolCalls]; simp [creates]⟩
   · exact ⟨[⟨.nodePatchLock, .conflict⟩], by simp, by simp [creates]⟩
   · exact ⟨[⟨.nodePatchLock, .notFound⟩], by simp, by simp [creates]⟩
   · exact ⟨[⟨.nodePatchLock, .other⟩], by simp, by simp [creates]⟩
@@ -634,16 +696,23 @@ theorem initialization_calls (sp : Spec) (f : Faults) (c : Ctx) :
   split; · exact ⟨[], by simp, rfl⟩
   exact initOne_calls f c _
 
+theorem timeoutDelete_calls (f : Faults) (c : Ctx) :
+    ∃ rest, (timeoutDelete f c).calls = c.calls ++ rest ∧ creates rest = [] := by
+  unfold timeoutDelete
+  simp only []
+  split; · exact ⟨poolCalls f, by simp, creates_poolCalls f⟩
+  have hc : creates (poolCalls f ++ [⟨.claimDelete, claimDeleteOutcome f c.w⟩]) = [] := by
+    rw [creates_append, creates_poolCalls]; simp [creates]
+  split
+  · exact ⟨poolCalls f ++ [⟨.claimDelete, claimDeleteOutcome f c.w⟩], by simp, hc⟩
+  · exact ⟨poolCalls f ++ [⟨.claimDelete, claimDeleteOutcome f c.w⟩], by simp, hc⟩
+
 theorem livenessLaunch_calls (f : Faults) (c : Ctx) :
     ∃ rest, (livenessLaunch f c).1.calls = c.calls ++ rest ∧ creates rest = [] := by
   unfold livenessLaunch
   split; · exact ⟨[], by simp, rfl⟩
   split; · exact ⟨[], by simp, rfl⟩
-  simp only []
-  split; · exact ⟨_, deleteClaim_calls f c, by simp [creates]⟩
-  split
-  · exact ⟨[⟨.claimDelete, claimDeleteOutcome f c.w⟩], by simp, by simp [creates]⟩
-  · exact ⟨[⟨.claimDelete, claimDeleteOutcome f c.w⟩], by simp, by simp [creates]⟩
+  exact timeoutDelete_calls f c
 
 theorem liveness_calls (f : Faults) (c : Ctx) :
     ∃ rest, (liveness f c).calls = c.calls ++ rest ∧ creates rest = [] := by
@@ -651,13 +720,10 @@ theorem liveness_calls (f : Faults) (c : Ctx) :
   split; · exact ⟨[], by simp, rfl⟩
   simp only []
   obtain ⟨r1, h1, h1'⟩ := livenessLaunch_calls f c
-  have hc : creates (r1 ++ [⟨.claimDelete, claimDeleteOutcome f (livenessLaunch f c).1.w⟩]) = [] := by
-    rw [creates_append, h1']; simp [creates]
   split; · exact ⟨r1, h1, h1'⟩
   split; · exact ⟨r1, by simp [h1], h1'⟩
-  split
-  · exact ⟨r1 ++ [⟨.claimDelete, claimDeleteOutcome f (livenessLaunch f c).1.w⟩], by simp [h1], hc⟩
-  · exact ⟨r1 ++ [⟨.claimDelete, claimDeleteOutcome f (livenessLaunch f c).1.w⟩], by simp [h1], hc⟩
+  obtain ⟨r2, h2, h2'⟩ := timeoutDelete_calls f (livenessLaunch f c).1
+  exact ⟨r1 ++ r2, by rw [h2, h1]; simp, by rw [creates_append, h1', h2']; rfl⟩
 
 theorem persist_calls (stored : Claim) (f : Faults) (c : Ctx) :
     ∃ rest, (persist stored f c).calls = c.calls ++ rest ∧ creates rest = [] := by
